@@ -413,4 +413,85 @@ def maybeCorrectNegDim (v_dim : Int) (v_shape : List Int) (v_ndim : Option Int) 
       else (
         .ok (v_new_dim))))
 
+def stDivmod (v_a : Int) (v_b : Int) : Except String (Int × Int) :=
+  if ((v_b = 0)) then .error "ZeroDivisionError" else (
+    let v_q : Int := (Int.fdiv v_a v_b)
+    if ((v_b = 0)) then .error "ZeroDivisionError" else (
+      let v_r : Int := (Int.fmod v_a v_b)
+      .ok (v_q, v_r)))
+
+def stClamp (v_x : Int) (v_lo : Int) (v_hi : Int) : Except String (Int) :=
+  let v_y : Int := (max v_lo (min v_x v_hi))
+  if ((v_lo ≤ v_y) ∧ (v_y ≤ v_hi)) then (
+    .ok (v_y))
+  else (
+    .ok ((v_lo - (1 : Int))))
+
+def stOpt (v_x : Option Int) (v_d : Int) : Except String (Int) :=
+  match v_x with
+  | none => (
+    let v_x : Int := v_d
+    if (True ∧ ((v_x ≠ (3 : Int)))) then (
+      .ok ((v_x * (2 : Int))))
+    else (
+      .ok (((0 : Int) - v_x))))
+  | some v_x => (
+    if ((v_x < (0 : Int))) then (
+      let v_x : Int := (- v_x)
+      if (True ∧ ((v_x ≠ (3 : Int)))) then (
+        .ok ((v_x * (2 : Int))))
+      else (
+        .ok (((0 : Int) - v_x))))
+    else (
+      if (True ∧ ((v_x ≠ (3 : Int)))) then (
+        .ok ((v_x * (2 : Int))))
+      else (
+        .ok (((0 : Int) - v_x)))))
+
+def stGuard (v_a : Int) (v_b : Int) : Except String (Int) :=
+  if (((v_b ≠ (0 : Int))) ∧ (((Int.fmod v_a v_b) = (0 : Int)))) then (
+    if ((v_b = 0)) then .error "ZeroDivisionError" else (
+      .ok ((Int.fdiv v_a v_b))))
+  else (
+    if (((v_b < (0 : Int))) ∧ (((Int.fdiv v_a v_b) > (1 : Int)))) then (
+      if ((v_b = 0)) then .error "ZeroDivisionError" else (
+        .ok (((0 : Int) - (Int.fmod v_a v_b)))))
+    else (
+      .ok ((- (1 : Int)))))
+
+def stLoop (v_xs : List Int) (v_k : Int) : Except String (List Int) :=
+  let v_acc : Int := (0 : Int)
+  let v_last : Option Int := none
+  let v_out : List Int := v_xs
+  match (List.range v_xs.length).foldlM (m := Except String) (fun (st__ : Int × List Int × Option Int) (i__ : Nat) =>
+      let v_i : Int := Int.ofNat i__
+      let (v_acc, v_out, v_last) := st__
+      if (((v_xs.getD (Int.toNat v_i) 0) < (- (2 : Int)))) then (
+        .error "ValueError")
+      else (
+        if (((Int.fmod (v_xs.getD (Int.toNat v_i) 0) (2 : Int)) = (0 : Int))) then (
+          if ((v_k = 0)) then .error "ZeroDivisionError" else (
+            let v_acc : Int := (v_acc + (Int.fdiv (v_xs.getD (Int.toNat v_i) 0) v_k))
+            let v_out : List Int := v_out.set (Int.toNat v_i) v_acc
+            .ok (v_acc, v_out, v_last)))
+        else (
+          match v_last with
+          | none => (
+            let v_last : Int := v_i
+            let v_acc : Int := (v_acc - (1 : Int))
+            .ok (v_acc, v_out, (some v_last)))
+          | some v_last => (
+            let v_acc : Int := (v_acc - (1 : Int))
+            .ok (v_acc, v_out, (some v_last))))))
+      (v_acc, v_out, v_last) with
+  | .error e__ => .error e__
+  | .ok (v_acc, v_out, v_last) => (
+    match v_last with
+    | none => (
+      .ok v_out)
+    | some v_last => (
+      if (((5 : Int) = 0)) then .error "ZeroDivisionError" else (
+        let v_out : List Int := v_out.set (Int.toNat v_last) (Int.fmod v_acc (5 : Int))
+        .ok v_out)))
+
 end TdVerif.Gen
